@@ -525,6 +525,68 @@ Between(lo, x, hi) ==
 FirstTripOK(ver, in, j1) == Between(Norm(ver, in), j1, in)
 IsNormal(ver, in) == Same(Norm(ver, in), in)
 
+(***************************************************************************)
+(* Receivers and entry points (history).  "Parsing" is an operation ON A    *)
+(* VALUE: json.Unmarshal / yaml.Unmarshal / UnmarshalJSON fill a T the      *)
+(* caller owns, and a Loader is an object that is used for one document      *)
+(* after another.  L1: what is serialised after a successful parse is a      *)
+(* function of the parsed input alone -- whatever the receiver held before   *)
+(* (nothing, an earlier document, the debris of a parse that failed          *)
+(* half-way) has no influence: nothing of an earlier document "appears".     *)
+(* A history is a sequence of prior documents parsed into the receiver       *)
+(* before the document under test.                                           *)
+(*   Entries: how the receiver is filled                                     *)
+(*     json  json.Unmarshal(data, &t)        yaml  yaml.Unmarshal(data, &t)  *)
+(*     meth  t.UnmarshalJSON(data)           alt   json, yaml, json ... in turn *)
+(*     loader (OpenAPI 3) one Loader, LoadFromData for every document        *)
+(*     lpath  (OpenAPI 3) one Loader, LoadFromDataWithPath, a new location each time *)
+(* L2 (implementation-shaped): how UnmarshalJSON of the root treats its      *)
+(* receiver.  "replace" (the code: decode into a fresh value, then assign    *)
+(* the whole struct) satisfies L1; "inplace" (decode into the receiver:      *)
+(* encoding/json assigns only the struct fields whose keys occur in the      *)
+(* input; the extension map is rebuilt) does not -- MC_C03H pins both.       *)
+(***************************************************************************)
+HistEntries(ver) == {"json", "yaml", "meth", "alt"} \cup (IF ver = 3 THEN {"loader", "lpath"} ELSE {})
+(* prior documents, by name: every optional root field populated (inline) with extension and unknown key;  *)
+(* the bare root; the full document with one field of the wrong JSON type placed last, so that the parse   *)
+(* fails after the fields before it have been decoded.                                                     *)
+PriorNames == {"full", "min", "bad"}
+PriorParses(name) == name # "bad"
+RootFullFv(ver) == LET kind == Root(ver) IN
+   {n \in Optional(kind) : FieldOf(kind, n).c # "pref"}
+RECURSIVE ApplyV(_, _, _)
+ApplyV(kind, obj, names) ==
+   IF names = {} THEN obj
+   ELSE LET n == CHOOSE q \in names : TRUE
+        IN ApplyV(kind, SetKey(obj, n, Val(kind, FieldOf(kind, n), "v")), names \ {n})
+PriorFull(ver) ==
+   LET kind == Root(ver)
+       o == ApplyV(kind, Min(kind), RootFullFv(ver))
+   IN WithTargets(ver, SetKey(SetKey(o, "x-prior", AnyV), "priorUnknown", O1("u", Nm("1"))))
+(* `tags' must be an array: a string there is a type error of the root decoder; tags is moved to the end *)
+PriorBad(ver) ==
+   LET f == PriorFull(ver)
+       keep == [i \in DOMAIN f.k |-> f.k[i] # "tags"]
+   IN Ov(Append(Pick(f.k, keep, 1), "tags"), Append(Pick(f.v, keep, 1), Sv("not-an-array")))
+PriorDoc(ver, name) == CASE name = "full" -> PriorFull(ver) [] name = "min" -> Min(Root(ver)) [] name = "bad" -> PriorBad(ver)
+
+RecvPolicies == {"replace", "inplace"}
+(* the abstract content of a receiver: a document value, or EmptyO for the zero value *)
+DecodeInto(policy, ver, old, name, new) ==
+   LET ok == name = "target" \/ PriorParses(name)
+       (* in place: catalogue fields of the old content that the input does not mention stay; extension and unknown keys are rebuilt from the input *)
+       stale == [i \in DOMAIN old.k |-> old.k[i] \in FieldNames(Root(ver)) /\ ~HasKey(new, old.k[i])]
+       merged == Merge(Ov(Pick(old.k, stale, 1), Pick(old.v, stale, 1)), new)
+   IN IF policy = "replace" THEN (IF ok THEN new ELSE old) ELSE merged
+RECURSIVE RecvFold(_, _, _, _, _)
+RecvFold(policy, ver, old, names, i) ==
+   IF i > Len(names) THEN old
+   ELSE RecvFold(policy, ver, DecodeInto(policy, ver, old, names[i], PriorDoc(ver, names[i])), names, i + 1)
+(* what the receiver holds after the history and the document under test *)
+RecvAfter(policy, ver, names, target) == DecodeInto(policy, ver, RecvFold(policy, ver, EmptyO, names, 1), "target", target)
+(* L1 on the model: the receiver's content is the document under test *)
+RecvL1(policy, ver, names, target) == Same(RecvAfter(policy, ver, names, target), target)
+
 (* first difference between two values, as a JSON-pointer-like path (for reports) *)
 RECURSIVE Diff(_, _)
 Diff(x, y) ==
